@@ -1,7 +1,7 @@
 (* C17 - A reused KeyBlock / Header behaves like a fresh one.
    Only statements, each closed by [exact] of a lemma from Proofs/Tr31History.v.
    All theorems hold for every pair of ciphers: no cipher hypothesis. *)
-From Psec Require Import Lib.Base Cipher.Cipher Model.Tr31 Proofs.Tr31History.
+From Psec Require Import Lib.Base Cipher.Cipher Cipher.Toy Model.Tr31 Proofs.Tr31History.
 
 (* Header.load: the returned length or the error raised depends on the input
    text only; after success every field (version, usage, algorithm, mode,
@@ -76,3 +76,19 @@ Example C17_history_instance : forall cd ca kbpk,
   step cd ca st (OpLoad ex_hdr2) =
     (mkState kbpk (mkHeader [65] [68; 48] [65] [78] [48; 48] [69] [48; 48] []), OutNat 16)%N.
 Proof. exact history_example. Qed.
+
+(* unwrap a version-D block; fail on garbage; unwrap a version-B block (toy ciphers) *)
+Example C17_unwrap_history_instance :
+  match wrap_str toy_tdes toy_aes ex_kbpk ex_whdr_b ex_key_b None ex_tape_b,
+        wrap_str toy_tdes toy_aes ex_kbpk ex_whdr_d ex_key_d None ex_tape_dd with
+  | Ok blk_b, Ok blk_d =>
+      let fresh := mkState ex_kbpk default_header in
+      let st := fst (run toy_tdes toy_aes fresh [OpUnwrap blk_d; OpUnwrap ex_bad]) in
+      snd (run toy_tdes toy_aes fresh [OpUnwrap blk_d; OpUnwrap ex_bad]) =
+        [OutBytes ex_key_d; OutErr HeaderError] /\
+      st_header st <> default_header /\
+      step toy_tdes toy_aes st (OpUnwrap blk_b) = step toy_tdes toy_aes fresh (OpUnwrap blk_b) /\
+      snd (step toy_tdes toy_aes st (OpUnwrap blk_b)) = OutBytes ex_key_b
+  | _, _ => False
+  end.
+Proof. exact unwrap_history_example. Qed.
